@@ -455,5 +455,93 @@ func c03Loopback(c *Ctx) {
 		}(w)
 	}
 	wg.Wait()
+	c03LateThenNext(c, T)
+	c03SetAddressUnsendable(c, T)
 	c.Res.Note("loopback-layer", fmt.Sprintf("T=%v, %d parallel clients, all sequences up to length %d x 3 paths x 6 operations + random long ones; farm endpoints %s (broadcast), %s (udp), %s (tcp)", T, workers, L, bc.Addr, cu.Addr, ct.Addr))
+}
+
+// c03LateThenNext: one client, one TCP (and one UDP) controller. The controller answers the first request after the call has given
+// up; the calls that follow get prompt replies. Every result is the reply to its own request (the reply carries the record the
+// request asked for) - the late reply of the first call is nobody's.
+func c03LateThenNext(c *Ctx, T time.Duration) {
+	fm := farm.New()
+	fm.KeepLog = false
+	ct, err1 := fm.AddTCP("127.0.0.1", 0)
+	cu, err2 := fm.AddUDP("127.0.0.1", 0)
+	if err1 != nil || err2 != nil {
+		return
+	}
+	defer fm.Close()
+	op := rm.FindOp("GetCardByIndex")
+	l := op.ReplyLayout()
+	var late atomic.Uint32 // the index whose reply is sent after the deadline
+	fm.SetScript(func(ep *farm.Endpoint, src net.Addr, req []byte, seq uint64) []farm.Action {
+		if len(req) != 64 || req[1] != op.Fn {
+			return nil
+		}
+		serial := uint32(req[4]) | uint32(req[5])<<8 | uint32(req[6])<<16 | uint32(req[7])<<24
+		index := uint32(req[8]) | uint32(req[9])<<8 | uint32(req[10])<<16 | uint32(req[11])<<24
+		msg := okReply(op, serial)
+		rm.EncodeField(msg, *l.Field("CardNumber"), rm.UVal(rm.U32, uint64(8000000+index)))
+		rm.EncodeField(msg, *l.Field("From"), rm.DateVal(2024, 1, 1))
+		rm.EncodeField(msg, *l.Field("To"), rm.DateVal(2024, 12, 31))
+		rm.EncodeField(msg, *l.Field("Door1"), rm.UVal(rm.U8, 1))
+		if index == late.Load() {
+			return []farm.Action{{Delay: T * 13 / 10, Data: msg}}
+		}
+		return []farm.Action{{Data: msg}}
+	})
+	for round := 0; round < c.N(4, 16); round++ {
+		serial := uint32(0x31000000) + uint32(c.Batch)<<16 + uint32(round)
+		proto, addr := "tcp", ct.Addr
+		if round%2 == 1 {
+			proto, addr = "udp", cu.Addr
+		}
+		u := mkClient(ClientCfg{Bind: workerIP(c, 0) + ":0", Broadcast: "127.0.0.1:1", Timeout: T, Devices: []DevCfg{{ID: serial, Addr: addr, Proto: proto}}})
+		base := uint32(100 * (round + 1))
+		late.Store(base)
+		start := time.Now()
+		u.GetCardByIndex(serial, base) // gives up at T; the reply leaves at 1.3 T
+		if rest := T*15/10 - time.Since(start); rest > 0 {
+			time.Sleep(rest)
+		}
+		for k := uint32(1); k <= 5; k++ {
+			card, err := u.GetCardByIndex(serial, base+k)
+			c.Res.Eval(1)
+			c.Res.DistinctKey("loopback", "late-then-next", proto)
+			if err == nil && card != nil && card.CardNumber != 8000000+base+k {
+				c.Res.Violate("C03:"+proto+":GetCardByIndex:valid:foreign-content:after-a-late-reply", fmt.Sprintf("GetCardByIndex(%d) over %s returned card %d - the reply to another request (the controller had answered the call before the previous ones too late; the reply to this request carries card %d)", base+k, proto, card.CardNumber, 8000000+base+k), map[string]any{"round": round}, int64(round))
+				break
+			}
+		}
+		c.Res.Count("loopback:late-reply-then-further-calls:"+proto, 1)
+	}
+}
+
+// c03SetAddressUnsendable: "SetAddress succeeds once the request is sent" - and not when it cannot be sent. Where this machine
+// refuses to send a datagram to the broadcast address (no route: the monitor tries it with a socket of its own first), SetAddress
+// over the broadcast path reports the failure.
+func c03SetAddressUnsendable(c *Ctx, T time.Duration) {
+	for _, bcast := range []string{"203.0.113.255:60000", "240.1.2.3:60000", "198.51.100.255:60000"} {
+		probe, err := net.ListenUDP("udp4", &net.UDPAddr{IP: net.ParseIP(workerIP(c, 0))})
+		if err != nil {
+			continue
+		}
+		ua, _ := net.ResolveUDPAddr("udp4", bcast)
+		_, werr := probe.WriteToUDP(make([]byte, 64), ua)
+		probe.Close()
+		if werr == nil {
+			c.Res.Count("loopback:set-address-unsendable:address-is-sendable-here(skipped)", 1)
+			continue
+		}
+		u := mkClient(ClientCfg{Bind: workerIP(c, 0) + ":0", Broadcast: bcast, Timeout: T})
+		serial := uint32(0x32000000) + uint32(c.Batch)
+		res, err2 := u.SetAddress(serial, net.IPv4(10, 0, 0, 9), net.IPv4(255, 255, 255, 0), net.IPv4(10, 0, 0, 1))
+		c.Res.Eval(1)
+		c.Res.DistinctKey("loopback", "set-address-unsendable", bcast)
+		c.Res.Count("loopback:set-address-where-the-kernel-refuses-the-send", 1)
+		if err2 == nil {
+			c.Res.Violate("C03:broadcast:SetAddress:reported-sent-although-unsendable", fmt.Sprintf("SetAddress over the broadcast path to %s returned %v without an error although the kernel refuses to send there (%v): nothing was sent", bcast, res, werr), map[string]any{"broadcast": bcast, "probe_error": werr.Error()}, 0)
+		}
+	}
 }
